@@ -341,7 +341,9 @@ func vfC14Run(t *testing.T, res *vfResult, c vfC14Case) {
 	}
 	cPre := vfC14ClientEntry(cS)
 	sPre := sS.Snapshot()[string(cPre.ID)]
-	secretsAgree := len(cPre.Secret) > 0 && bytes.Equal(cPre.Secret, sPre.Secret)
+	// HMAC pads a key shorter than its block with zeros, so two master secrets that differ only in trailing zero
+	// bytes key the PRF identically (a truncation that happens to drop a 0x00 is no mismatch)
+	secretsAgree := len(cPre.Secret) > 0 && bytes.Equal(bytes.TrimRight(cPre.Secret, "\x00"), bytes.TrimRight(sPre.Secret, "\x00"))
 	second := vfC14Cfg(c.Cfg, c.Second)
 	c2 := vfC14Connect(second, cS, sS, install, true)
 	res.NonTrivial(c.ID())
